@@ -10,7 +10,7 @@ CONSTANTS TNs, RNs, MaxRels   \* type names, relationship names (symbol sequence
 TNsQ == {<<1>>, <<1,2>>, <<1,4,2>>, <<10>>}   \* 10 = "A": a name that differs from "a" by case only
 RNsQ == {<<3>>, <<2,3>>, <<2,4,3>>}
 TNsT == {<<1>>, <<1,2>>, <<1,4,2>>, <<2>>, <<10>>}
-RNsT == {<<3>>, <<2,3>>, <<2,4,3>>, <<1>>, <<1,2>>}
+RNsT == {<<3>>, <<2,3>>, <<2,4,3>>, <<1>>}     \* (a fifth name, <<1,2>>, doubled the 12 M states of this universe for no new shape)
 
 \* (a relationship VALUE may also carry the empty type name on either end; no schema holds such a type)
 AllRelVals == { [ft |-> a, fn |-> n, to1 |-> c, tt |-> b, tn |-> m, fo1 |-> d] :
